@@ -1,13 +1,15 @@
 import Wayfind.Proofs.FindOpt
 import Wayfind.Proofs.FindDelete
+import Wayfind.Proofs.Registry6
+import Wayfind.Proofs.SortDedup
 
 /-! # C08 — insert refuses exactly the structural duplicates
 The conflict test of `Router::insert` is `find` on the parts of every expansion. The theorems: the tree is a finite
 map keyed by well-formed part lists — `find` after `insert` sees exactly the new key in addition to the old ones
 (through every radix split), a key is found iff a route with that (normalised) part sequence is stored, and
 `optimize` changes no lookup.
-Status: **partial** — tree layer; the Router-level statement (conflict list = sorted, duplicate-free list of the live
-templates sharing an expansion) needs the registry invariant. -/
+Status: proved on live templates for histories whose inserted templates have pairwise different expansions; the
+duplicate-expansion family is tied by the `dup` and `pairs` suites. -/
 
 theorem C08_find_after_insert (n : Node) (P Q : List Part) (i : Info) (hS : Node.SOK n)
     (hP : altOK P = true) (hQ : altOK Q = true) (hnew : Node.find n P = none) :
@@ -21,3 +23,26 @@ theorem C08_find_iff_route (n : Node) (P : List Part) (i : Info) (hS : Node.Shp 
 theorem C08_find_ignores_optimize (n : Node) (Q : List Part) (hS : Node.Shp n) :
     Node.find (Node.optimize n) Q = Node.find n Q :=
   Node.find_optimize n Q hS
+
+/-- **On live templates.** For a parsed template whose constraints are registered: `insert` fails with a conflict iff
+some expansion has the same part sequence as an expansion of a live template; the error names exactly the live
+templates that collide … -/
+theorem C08_conflict_iff_structural_duplicate (r : Router) (L : List LiveT) (h : Live r L) (t : Bytes) (d : Nat)
+    (ts : List (Bytes × List Part)) (hp : parseTemplates t = .ok ts)
+    (hknown : firstUnknown (fun c => r.registry.any (·.1 == c)) ts = none) :
+    ((∃ cs, r.insert t d = .error (.conflict t cs)) ↔ ∃ lt ∈ L, ∃ e ∈ lt.exps, ∃ e' ∈ ts, e.2 = e'.2) ∧
+    (∀ cs, r.insert t d = .error (.conflict t cs) →
+      ∀ y, y ∈ cs ↔ ∃ lt ∈ L, lt.template = y ∧ ∃ e ∈ lt.exps, ∃ e' ∈ ts, e.2 = e'.2) :=
+  insert_conflict_iff_live h t d ts hp hknown
+
+/-- … each exactly once, in sorted order: the list is strictly increasing -/
+theorem C08_conflict_list_strictly_sorted (r : Router) (t t' : Bytes) (d : Nat) (cs : List Bytes)
+    (h : r.insert t d = .error (.conflict t' cs)) : SortedLt cs := by
+  obtain ⟨ts, _, _, _, _, hcs⟩ := (Router.insert_conflict_iff r t d t' cs).1 h
+  rw [hcs]; exact conflict_list_sorted _
+
+/-- otherwise the insert succeeds and every expansion becomes routable -/
+theorem C08_success_makes_expansions_routable (env : Env) (r r' : Router) (L : List LiveT) (h : Live r L) (t : Bytes) (d : Nat)
+    (hi : r.insert t d = .ok r') (ts : List (Bytes × List Part)) (hp : parseTemplates t = .ok ts) (hd : DistinctExps ts)
+    (path : Bytes) (hfit : ∃ e ∈ ts, ∃ vs, Fits env e.2 path vs) : (r'.search env path).isSome = true :=
+  insert_routes env h hi ts hp hd path hfit
